@@ -9,7 +9,7 @@
 From Coq Require Import List Arith ZArith QArith Reals Bool Lia.
 From TLV Require Import Base.Shape Base.Tensor Base.RSum Model.Structure Proofs.StructureProofs Proofs.StructureProofs2
   Proofs.StructureProofs3 Proofs.StructureProofs4 Proofs.StructureProofsQ Proofs.StructureProofsR Proofs.StructureNormR
-  Base.BigSum Proofs.StructureConj Proofs.StructureConjR Proofs.StructureConjCompose Proofs.StructureTTConj Model.StructureWeights Proofs.StructureWeightsProofs Model.StructureHooi Proofs.StructureProofs5 Proofs.StructureHooiProofs Proofs.StructureHooiConj.
+  Base.BigSum Proofs.StructureConj Proofs.StructureConjR Proofs.StructureConjCompose Proofs.StructureTTConj Model.StructureWeights Proofs.StructureWeightsProofs Proofs.StructureP2Proofs Model.StructureHooi Proofs.StructureProofs5 Proofs.StructureHooiProofs Proofs.StructureHooiConj.
 From TLV Require Import Model.StructureQ.
 Import ListNotations.
 Local Open Scope nat_scope.
@@ -403,6 +403,27 @@ Theorem C08_nn_tucker_parafac2_old_flow_refuted :
   (forall tol_set decisions, ghost_p2_old tol_set 0 decisions = false).
 Proof. exact (conj ghost_nt_old_cap0 (conj ghost_nt_old_convergence ghost_p2_old_cap0)). Qed.
 Print Assumptions C08_nn_tucker_parafac2_old_flow_refuted.
+
+(* ---- parafac2 end to end over the OUTER loop with respect to the projections (Model/StructureHooi.v p2o_run: SVD / random / user initialisation,
+   non-negativity clipping of a built-in initialisation, absorption of the weights, _compute_projections, the CP updates, the line search -- every
+   second sweep from iteration 6 on, its jump accepted or rejected --, normalisation, convergence exit).  For every cap and every sequence of
+   (line-search, convergence) decisions: if the SVD initialisation is used, or a sweep runs, or the initial projections had the property, the returned
+   projections have it, provided _compute_projections establishes it and the other operations do not assign the projections *)
+Theorem C08_parafac2_outer_loop : forall (St : Type) (svd_init clip compute_proj absorb updates jump normalise : St -> St) (discard : St -> St -> St)
+  (ProjOrth : St -> Prop), (forall s, ProjOrth (compute_proj s)) -> (forall s, ProjOrth s -> ProjOrth (updates s)) ->
+  (forall s, ProjOrth s -> ProjOrth (normalise s)) -> (forall s, ProjOrth s -> ProjOrth (clip s)) -> (forall t s, ProjOrth s -> ProjOrth (discard t s)) ->
+  forall ik nn nf tol_set ls n decisions s0, ik = InitSvd \/ 0 < n \/ ProjOrth s0 ->
+  ProjOrth (p2o_run St svd_init clip compute_proj absorb updates jump normalise discard ik nn nf tol_set ls n decisions s0).
+Proof. exact p2o_run_orth. Qed.
+Print Assumptions C08_parafac2_outer_loop.
+(* the instance compared with the implementation's _compute_projections calls on every run: the returned projections are some call's output *)
+Theorem C08_parafac2_trace_from_call : forall ik nn nf tol_set ls n decisions, ik = InitSvd \/ 0 < n ->
+  1 <= snd (p2o_trace ik nn nf tol_set ls n decisions).
+Proof. exact p2o_trace_from_call. Qed.
+Print Assumptions C08_parafac2_trace_from_call.
+Example C08_parafac2_trace_ex : p2o_trace InitSvd false true true true 9 (repeat (false, false) 6 ++ [(false, false); (false, false); (true, false)]) = (12, 12) /\
+  p2o_trace InitRandom false false true true 7 (repeat (false, false) 7) = (8, 7) /\ p2o_trace InitRandom false false false false 0 [] = (0, 0).
+Proof. exact p2o_trace_ex. Qed.
 
 (* ---- the loop skeleton as data.  The harness reads a description of each driver's loop off the CURRENT source (ast walk) and Coq
    evaluates desc_ok on it on every run; the contract is proved for EVERY description satisfying desc_ok, every cap and every
@@ -847,3 +868,21 @@ Print Assumptions C08_init_user_weights_absorbed.
 Theorem C08_absorb_at_shapes : forall k w fs, map rows (absorb_at k w fs) = map rows fs.
 Proof. exact absorb_at_shapes. Qed.
 Print Assumptions C08_absorb_at_shapes.
+
+(* PARAFAC2 end to end over R: F = the CP factors, svdU / svdVh the SVD pair inside _compute_projections for slice i (any functions with orthonormal
+   rows: the SVD contract), every other operation an arbitrary function.  For every cap and decision sequence the result has ONE projection per slice,
+   each with orthonormal columns, and the evolving factors B_i = P_i B share the cross product B^T B *)
+Theorem C08_parafac2_result_canonical : forall (F : Type) (getB : F -> nat -> nat -> R) (r : nat) (Js : list nat) (svdU svdVh : nat -> F -> nat -> nat -> R),
+  (forall i f, (i < length Js)%nat -> orthonormal_rows r r (svdU i f)) ->
+  (forall i f, (i < length Js)%nat -> orthonormal_rows r (nth i Js 0%nat) (svdVh i f)) ->
+  forall (f_svd_init f_clip f_absorb f_jump f_normalise : F -> F) (f_updates_p : F -> list (nat -> nat -> R) -> F)
+    ik nn nf tol_set ls n decisions f0 P0,
+  ik = InitSvd \/ (0 < n)%nat \/ ProjOrthR F r Js (f0, P0) ->
+  let res := parafac2_R F r Js svdU svdVh f_svd_init f_clip f_absorb f_jump f_normalise f_updates_p ik nn nf tol_set ls n decisions f0 P0 in
+  let B := getB (fst res) in
+  length (snd res) = length Js /\
+  (forall i, (i < length Js)%nat -> orthonormal_cols (nth i Js 0%nat) r (nth i (snd res) zmatR)) /\
+  (forall i a b, (i < length Js)%nat ->
+     rsum (nth i Js 0%nat) (fun j => mmul r (nth i (snd res) zmatR) B j a * mmul r (nth i (snd res) zmatR) B j b) = rsum r (fun l => B l a * B l b)).
+Proof. exact parafac2_R_canonical. Qed.
+Print Assumptions C08_parafac2_result_canonical.
